@@ -18,7 +18,9 @@
 EXTENDS Integers, Sequences, FiniteSets, TLC
 
 CONSTANTS OpA, OpB, OpC, \* operation names, see Segs ("NONE": no such actor)
-          Situation,    \* "std" | "k2waiting", see above
+          Situation,    \* "std" | "k2waiting", see above; "twoflight": m1 in flight to k1 AND m2 in flight to k2, both due;
+                        \* "k1deferred": m1 was requeued with a delay by k1 (it waits in the deferred map: outside this model,
+                        \* Empty discards it and owes no consumer anything for it), m2 queued
           Guarded,      \* removeFromInFlightPQ checks that its slot still holds the message (fix 1); FALSE = as first found
           ExitGuard,    \* REQ/TOUCH hold exitMutex.R from before the pop to the end and refuse when exiting (fix 3)
           PerMessage    \* Empty takes the discarded messages off their owners' counters (fix 2); FALSE = zeroes all counters
@@ -44,7 +46,7 @@ VARIABLES ifm,     \* in-flight map: id -> owner connection
 vars == <<ifm, heap, hgen, midx, q, cnt, fin, gone, lock, crashed, pc, hold, sched, dropped, exiting, disk, lost, mcid>>
 Actors == {"A", "B", "C"}
 Op(a) == CASE a = "A" -> OpA [] a = "B" -> OpB [] a = "C" -> OpC
-Msgs == IF Situation = "k2waiting" THEN {"m1"} ELSE {"m1", "m2"}
+Msgs == CASE Situation = "k2waiting" -> {"m1"} [] Situation = "k1deferred" -> {"m2"} [] OTHER -> {"m1", "m2"}
 K1 == 1
 K2 == 2
 
@@ -52,12 +54,16 @@ K2 == 2
 Segs(op) == CASE op = "FIN" -> 3 [] op = "REQ0" -> 4 [] op = "TOUCH" -> 4 [] op = "SCAN" -> 3
               [] op = "DELIVER" -> 4 [] op = "EMPTY" -> 3 [] op = "FIN2" -> 3 [] op = "EXIT" -> 4 [] op = "DELIVERQ" -> 4 [] OTHER -> 0
 
-Init == /\ ifm = ("m1" :> K1)
-        /\ heap = <<"m1">> /\ hgen = 0
-        /\ midx = ("m1" :> [g |-> 0, i |-> 0]) @@ ("m2" :> [g |-> 0, i |-> -1])
-        /\ q = Msgs \ {"m1"}
+Init == /\ ifm = CASE Situation = "twoflight" -> ("m1" :> K1) @@ ("m2" :> K2)
+                     [] Situation = "k1deferred" -> <<>>
+                     [] OTHER -> ("m1" :> K1)
+        /\ heap = CASE Situation = "twoflight" -> <<"m1", "m2">> [] Situation = "k1deferred" -> <<>> [] OTHER -> <<"m1">>
+        /\ hgen = 0
+        /\ midx = ("m1" :> [g |-> 0, i |-> IF Situation = "k1deferred" THEN -1 ELSE 0])
+                   @@ ("m2" :> [g |-> 0, i |-> IF Situation = "twoflight" THEN 1 ELSE -1])
+        /\ q = IF Situation = "twoflight" THEN {} ELSE Msgs \ {"m1"}
         /\ mcid = ("m1" :> K1) @@ ("m2" :> K2)
-        /\ cnt = (K1 :> 1) @@ (K2 :> 0)
+        /\ cnt = (K1 :> IF Situation = "k1deferred" THEN 0 ELSE 1) @@ (K2 :> IF Situation = "twoflight" THEN 1 ELSE 0)
         /\ fin = {} /\ gone = {} /\ lock = "" /\ crashed = FALSE
         /\ pc = [a \in Actors |-> IF Segs(Op(a)) = 0 THEN 0 ELSE 1] /\ hold = [a \in Actors |-> ""]
         /\ sched = <<>> /\ dropped = <<>>
